@@ -960,6 +960,21 @@ def kernels_forward_keywords(ck, rule):
                                       for x in ast.walk(k.node))
                 ck.check(named or spread or reads, rule, k, "%s uses the %s argument its public function forwards" % (k.name, key), "%s=... is accepted by **%s and dropped" % (key, kwn), k.node,
                          "%s reaches the value route but not the raw route: the two methods disagree" % key)
+    # and a kernel adds nothing of its own to the record it hands to NumPy
+    for f, w, call in public_functions(prog):
+        for k in kernel_candidates(prog, f, call):
+            kwn = k.kwarg
+            if not kwn:
+                continue
+            for x in ast.walk(k.node):
+                added = None
+                if isinstance(x, ast.Call) and isinstance(x.func, ast.Attribute) and dotted(x.func.value) == kwn and x.func.attr in ("setdefault", "update", "__setitem__"):
+                    added = src(x)[:60]
+                elif isinstance(x, ast.Subscript) and isinstance(x.ctx, ast.Store) and dotted(x.value) == kwn:
+                    added = src(x)[:60]
+                if added:
+                    ck.bad(rule, k, "%s hands NumPy the caller's keywords only (adds none of its own)" % k.name, added, x,
+                           "an extra argument such as initial= changes the reduction's result for some inputs")
     if n == 0:
         raise AnalysisError("no forwarded kernel keywords found")
 
